@@ -622,13 +622,40 @@ KERNEL_GROUPS['KernelsGpo'] = [
     ('genomic_position_offsets.py', '_compute_ref_offsets', 'k_compute_ref_offsets', None),
     ('genomic_position_offsets.py', '_compute_ref_del_mask', 'k_compute_ref_del_mask', None),
     ('genomic_position_offsets.py', '_compute_alt_ins_mask', 'k_compute_alt_ins_mask', None),
+    # the methods of GenomicPositionOffsets that read those tables: ALT -> REF positions and the overlap test of ALT-coordinate variants
+    ('utils.py', 'clamp_non_negative', 'kg_clamp_non_negative', None),
+    ('utils.py', 'get_end', 'kg_get_end', None),
+    ('uint_range.py', 'UIntRange.positions', 'k_range_positions', 'range'),
+    ('variant.py', 'Variant.ref_len', 'kg_var_ref_len', 'variant'),
+    ('variant.py', 'Variant.ref_end', 'kg_var_ref_end', 'variant'),
+    ('genomic_position_offsets.py', 'GenomicPositionOffsets._get_ref_pos_offset', 'k_gpo_get_ref_pos_offset', 'kgpo'),
+    ('genomic_position_offsets.py', 'GenomicPositionOffsets._get_alt_pos_offset', 'k_gpo_get_alt_pos_offset', 'kgpo'),
+    ('genomic_position_offsets.py', 'GenomicPositionOffsets.ref_start', 'k_gpo_ref_start', 'kgpo'),
+    ('genomic_position_offsets.py', 'GenomicPositionOffsets.ref_length', 'k_gpo_ref_length', 'kgpo'),
+    ('genomic_position_offsets.py', 'GenomicPositionOffsets.alt_end', 'k_gpo_alt_end', 'kgpo'),
+    ('genomic_position_offsets.py', 'GenomicPositionOffsets._ref_to_alt_offset', 'k_gpo_ref_to_alt_offset', 'kgpo'),
+    ('genomic_position_offsets.py', 'GenomicPositionOffsets.get_offset', 'k_gpo_get_offset', 'kgpo'),
+    ('genomic_position_offsets.py', 'GenomicPositionOffsets.validate_ref_position', 'k_gpo_validate_ref_position', 'kgpo'),
+    ('genomic_position_offsets.py', 'GenomicPositionOffsets.validate_alt_position', 'k_gpo_validate_alt_position', 'kgpo'),
+    ('genomic_position_offsets.py', 'GenomicPositionOffsets._pos_to_offset', 'k_gpo_pos_to_offset', 'kgpo'),
+    ('genomic_position_offsets.py', 'GenomicPositionOffsets._offset_to_pos', 'k_gpo_offset_to_pos', 'kgpo'),
+    ('genomic_position_offsets.py', 'GenomicPositionOffsets.alt_pos_exists_in_ref', 'k_gpo_alt_pos_exists_in_ref', 'kgpo'),
+    ('genomic_position_offsets.py', 'GenomicPositionOffsets.ref_pos_exists_in_alt', 'k_gpo_ref_pos_exists_in_alt', 'kgpo'),
+    ('genomic_position_offsets.py', 'GenomicPositionOffsets.ref_pos_overlaps_var', 'k_gpo_ref_pos_overlaps_var', 'kgpo'),
+    ('genomic_position_offsets.py', 'GenomicPositionOffsets._alt_to_ref_position', 'k_gpo_alt_to_ref_position_unsafe', 'kgpo'),
+    ('genomic_position_offsets.py', 'GenomicPositionOffsets.alt_to_ref_position', 'k_gpo_alt_to_ref_position', 'kgpo'),
+    ('genomic_position_offsets.py', 'GenomicPositionOffsets._ref_offset_to_alt_pos', 'k_gpo_ref_offset_to_alt_pos', 'kgpo'),
+    ('genomic_position_offsets.py', 'GenomicPositionOffsets.alt_var_overlaps_var', 'k_gpo_alt_var_overlaps_var', 'kgpo'),
+    # REF -> ALT (the nearest-position search goes through the SEARCH_F table to two array_utils functions: Model/PyLoop.v u8_prev_index / u8_next_index)
+    ('genomic_position_offsets.py', 'GenomicPositionOffsets.ref_to_alt_position', 'k_gpo_ref_to_alt_position', 'kgpo'),
+    ('genomic_position_offsets.py', 'GenomicPositionOffsets.ref_to_alt_range', 'k_gpo_ref_to_alt_range', 'kgpo'),
 ]
-KERNEL_BUILTINS = {'KernelsGpo': ('get_u8_array',)}
-KERNEL_EXTRA_SOURCES = {'KernelsMave': ['enums.py'], 'KernelsNames': ['enums.py', 'constants.py'], 'KernelsLift': ['enums.py']}
+KERNEL_BUILTINS = {'KernelsGpo': ('get_u8_array', 'get_prev_index', 'get_next_index')}
+KERNEL_EXTRA_SOURCES = {'KernelsMave': ['enums.py'], 'KernelsNames': ['enums.py', 'constants.py'], 'KernelsLift': ['enums.py'], 'KernelsGpo': ['enums.py']}
 KERNEL_CONSTS = {'KernelsNames': ('REVCOMP_OLIGO_NAME_SUFFIX',)}
 KERNEL_IMPORTS = {'KernelsTargeton': ' Model.Targeton', 'KernelsMave': ' Model.Seq Model.Vcf Model.Mave Model.PyStr',
                   'KernelsNames': ' Model.Seq Model.Vcf Model.Mave Model.PyStr', 'KernelsLift': ' Model.Seq Model.Vcf Model.Gpo',
-                  'KernelsGpo': ' Model.Seq Model.Vcf Model.Gpo Model.PyLoop'}
+                  'KernelsGpo': ' Model.Seq Model.Vcf Model.Gpo Model.PyStr Model.PyLoop'}
 
 
 def _kernel_extractor(name):
